@@ -44,3 +44,83 @@ Fixpoint op_mismatches_from (k : nat) (cs : list opcase) : list nat :=
       else k :: op_mismatches_from (S k) r
   end.
 Definition op_mismatches := op_mismatches_from 0.
+
+(* ------------------------------------------------------------------------------------------------ *)
+(* operator-level cases of the aggregation, limit and merge operators (harness cmd/c08op)             *)
+From OG Require Import C08.Pipe.
+
+(* aggregation: the columns, the input chunks (key of the (group, window), raw row) and the expected output
+   (key, reported time when it is defined by the language - single selector -, cells) *)
+Definition aggop_out := (Z * option Z * list cell)%type.
+Definition aggop_case := (list aggcol * list (list (Z * row)) * list aggop_out)%type.
+
+Definition aggop_time (aggs : list aggcol) (pr : prow) : option Z :=
+  match aggs, pr with
+  | [(fn, _, _)], [Some p] => if is_selector fn then Some (fst (p_best p)) else None
+  | _, _ => None
+  end.
+
+Definition aggop_eval (aggs : list aggcol) (chunks : list (list (Z * row))) : list aggop_out :=
+  map (fun x : Z * prow => (fst x, aggop_time aggs (snd x), fin_row aggs (snd x)))
+      (concat (agg_chunks Z.eqb (fun v : prow => v) (rowop aggs) (same_group Z.eqb) None
+                 (map (map (fun kr : Z * row => (fst kr, row_part aggs (snd kr)))) chunks))).
+
+Definition aggop_out_eqb (model want : aggop_out) : bool :=
+  let '(k, t, cs) := model in
+  let '(k', t', cs') := want in
+  (k =? k') && list_eqb cell_eqb cs cs' &&
+  match t' with
+  | None => true
+  | Some x => match t with Some y => x =? y | None => false end
+  end.
+
+Fixpoint aggop_mismatches_from (k : nat) (cs : list aggop_case) : list nat :=
+  match cs with
+  | [] => []
+  | (aggs, chunks, want) :: r =>
+      if list_eqb aggop_out_eqb (aggop_eval aggs chunks) want then aggop_mismatches_from (S k) r
+      else k :: aggop_mismatches_from (S k) r
+  end.
+Definition aggop_mismatches := aggop_mismatches_from 0.
+
+(* limit: offset, limit, chunks of row ids, expected ids *)
+Definition limitop_case := (nat * nat * list (list Z) * list Z)%type.
+Fixpoint limitop_mismatches_from (k : nat) (cs : list limitop_case) : list nat :=
+  match cs with
+  | [] => []
+  | (off, lim, chunks, want) :: r =>
+      if list_eqb Z.eqb (snd (run_chunks (limit_step off lim) 0%nat chunks)) want then limitop_mismatches_from (S k) r
+      else k :: limitop_mismatches_from (S k) r
+  end.
+Definition limitop_mismatches := limitop_mismatches_from 0.
+
+(* sorted merge (plain selections): the readers' sorted streams and the operator's output, exactly merge_k *)
+Definition sortmerge_case := (list (list arow) * list arow)%type.
+Fixpoint sortmerge_mismatches_from (k : nat) (cs : list sortmerge_case) : list nat :=
+  match cs with
+  | [] => []
+  | (inputs, got) :: r =>
+      if list_eqb arow_eqb (merge_k inputs) got then sortmerge_mismatches_from (S k) r
+      else k :: sortmerge_mismatches_from (S k) r
+  end.
+Definition sortmerge_mismatches := sortmerge_mismatches_from 0.
+
+(* ordered merge below the aggregation: the output must be ordered by key and carry the same rows under every key as
+   kmerge_k of the inputs (the order inside one key is free: the proofs use only sortedness and the permutation) *)
+Definition kmerge_case := (list (list (Z * arow)) * list (Z * arow))%type.
+Definition enc_keyed (x : Z * arow) : arow := (fst x, CVal (fst (snd x)) :: snd (snd x)).
+Fixpoint keys_sorted (l : list Z) : bool :=
+  match l with
+  | x :: ((y :: _) as r) => (x <=? y) && keys_sorted r
+  | _ => true
+  end.
+Definition kmerge_ok (c : kmerge_case) : bool :=
+  let '(inputs, got) := c in
+  keys_sorted (map fst got) &&
+  list_eqb arow_eqb (sort_rows (map enc_keyed got)) (sort_rows (map enc_keyed (kmerge_k inputs))).
+Fixpoint kmerge_mismatches_from (k : nat) (cs : list kmerge_case) : list nat :=
+  match cs with
+  | [] => []
+  | c :: r => if kmerge_ok c then kmerge_mismatches_from (S k) r else k :: kmerge_mismatches_from (S k) r
+  end.
+Definition kmerge_mismatches := kmerge_mismatches_from 0.
